@@ -1,7 +1,7 @@
 """C11 - filtering is gated by the print lifecycle."""
 import ast
 
-from .entries import make_interp, run_plugin_method, gcodes_to_analyse
+from .entries import make_interp, run_plugin_method, gcodes_to_analyse, unknown_subcode
 from .pathfacts import Facts, live_alts
 from .plugin import effects, region_mutations, notifications
 from .values import NONE, Num, Str, SStr, Obj, TupleV, Opaque
@@ -103,7 +103,7 @@ def gating_rule(ctx, I):
         # every argument OctoPrint supplies is unknown: command type, sub code and the tag set may be None or anything else
         cases.append(('handleGcodeQueuing', [Opaque('comm'), SStr('PHASE'), SStr('CMD', nonempty=True),
                                              I.maybe(('null', 'arg:cmdType'), SStr('CMDTYPE')), Str(g),
-                                             I.maybe(('null', 'arg:subcode'), Opaque('SUBCODE')),
+                                             unknown_subcode(I),
                                              I.maybe(('null', 'arg:tags'), Opaque('TAGS'))]))
     cases.append(('handleAtCommandQueuing', [Opaque('comm'), SStr('PHASE'), SStr('ATCMD', nonempty=True), SStr('PARAMS'),
                                              I.maybe(('null', 'arg:tags'), Opaque('TAGS'))]))
@@ -130,11 +130,43 @@ def writers_rule(ctx):
                        'the active-print flag is written outside the lifecycle functions', line=line)
 
 
+def settings_refresh_rule(ctx, I, rule, field):
+    """the plugin field that mirrors a stored setting is refreshed from that setting on every path of
+    _handleSettingsUpdated - including the paths that end in an exception (a malformed @-command pattern, an unknown
+    mode): OctoPrint only logs the exception, the plugin goes on with whatever the field holds"""
+    paths = run_plugin_method(I, '_handleSettingsUpdated', [])
+    if not paths:
+        raise AnalysisError('anchor vanished: ExcludeRegionPlugin._handleSettingsUpdated')
+    for p in paths:
+        ok = False
+        for e in p.st.trace:
+            if e[0] != 'write' or e[4] != 'P' or e[2] != field:
+                continue
+            ok = False      # the last write counts
+            for v in live_alts(p.st, e[3]):
+                tag = getattr(v, 'tag', '')
+                if isinstance(v, Opaque) and '_settings.get' in tag:
+                    args = [a for o, seq in p.st.seqs.items() if ("'%s'" % o) in tag for a in seq]
+                    if any(isinstance(a, Str) and a.s == field for a in args):
+                        ok = True
+        outcome = 'raises %s' % p.ret.exc if isinstance(p.ret, Raised) else 'returns'
+        ctx.instance(rule, (field, outcome))
+        if not ok:
+            ctx.report(rule, 'ExcludeRegionPlugin._handleSettingsUpdated', '%s not refreshed on a path that %s' % (field, outcome),
+                       'a settings update can leave %s at its old value (%s): the plugin then acts on a setting the user has '
+                       'changed' % (field, 'the handler raises before the field is read; OctoPrint only logs the exception'
+                                    if isinstance(p.ret, Raised) else 'the field is not assigned from the stored setting'))
+            break
+
+
 def run(ctx, tier):
     declare(ctx)
     I = make_interp(ctx.model, unroll=2 if tier == 'thorough' else 1)
     event_rule(ctx, I)
     gating_rule(ctx, I)
     writers_rule(ctx)
+    ctx.rule('C11.R4', 'clearRegionsAfterPrintFinishes is refreshed from the stored setting on every path of the settings '
+                       'handler, exceptional ones included', floor=2)
+    settings_refresh_rule(ctx, make_interp(ctx.model), 'C11.R4', 'clearRegionsAfterPrintFinishes')
     ctx.assume('stored settings are valid (the configuration classes reject anything else)')
     ctx.assume('distinct Events.* names are distinct values; OctoPrint delivers events/hook calls as documented')
